@@ -40,7 +40,7 @@ def jobs(tier):
         for k in (1, 2, 3):
             base = {"max": mx, "min": mn, "tasks": ["ret", "raise", "ret"], "clients": clients, "W": mx + 2,
                     "props": ["exactly_once", "nodeadlock", "stopped_clean", "no_run_after_stop"], "window_at": k, "twin_prog": "progress", "hold": [1]}
-            out.append((dict(base, name="c11-stop-busy-max{0}min{1}-op{2}".format(mx, mn, k)), full))
+            out.append((dict(base, name="c11-stop-busy-max{0}min{1}-op{2}".format(mx, mn, k)), dict(full, depth=full["depth"] - 2, timeout=600)))
             if thorough and k == 3:
                 out.append((dict(base, name="c11-stop-busy-max{0}min{1}-op{2}".format(mx, mn, k)), ctx))
         # an enqueue landing while stop() is inside clear() (queue drained, workers joined)
